@@ -176,7 +176,9 @@ def run(tier):
         t = k.op.split(" ")
         dist["modes"][t[2]] = dist["modes"].get(t[2], 0) + 1
         v._distinct.add((k.case.meta.get("table"), t[2], t[3], t[4], t[5], t[6][:64], len(t[6])))
-        if k.eok is False:
+        if k.eok is False and t[0] == "FWD":
+            # (backward calls of the composite cases are C02's: its driver theorem needs E1/E3 only, and E4' IS violated
+            # by real backward passes - a copy action that moves the output down leaves the map entries it wrote)
             dist["contract_fail"] += 1
             v.violation("C01:contract:%s" % k.failed, "a recorded pass violates EngineOK (%s): the driver then indexes its "
                         "position maps with values the theorem does not cover | %s" % (k.failed, k.op[:200]),
